@@ -62,6 +62,7 @@ structure Handler where
   resClose : Bool := false      -- `res.Close` after round trip / response modifier
   -- ghost --
   late : Bool := false          -- `closing` was already signalled when this connection was accepted
+  entered : Bool := false       -- passed the `Closing()` check of `handleLoop` with "not closing"
   reqs : Nat := 0               -- requests returned by `readRequest`
   started : Nat := 0            -- request-modifier starts
   completed : Nat := 0          -- responses completely written
@@ -125,7 +126,7 @@ def hstep (closing mu returned : Bool) (h : Handler) : HL → Option Handler
   | .spawn => if h.pc = .accepted then some { h with pc := .spawned } else none
   | .add => if h.pc = .spawned ∧ mu = false then some { h with pc := .added } else none
   | .checkClosing =>
-    if h.pc = .added then some { h with pc := if closing then .closingConn else .idleRead } else none
+    if h.pc = .added then some { h with pc := if closing then .closingConn else .idleRead, entered := !closing } else none
   | .firstByte => if h.pc = .idleRead then some { h with pc := .midHead } else none
   | .gotReq rc =>
     -- `select` in readRequest: the request arm may be taken whether or not `closing` is closed
